@@ -5,7 +5,13 @@
          vnode = the node (0: none) that is the zero Node presented through custom ChildCount/Child: node 1 as format.Format
          does for its virtual root, or node 2 - an interior position: the zero Node is a node like any other to Walk.
    Environment = the callbacks: prune = nodes on which Pre returns false, abort = the node on which Post
-         returns false (0: none), preNil / postNil = the callback is nil.
+         returns false (0: none), preNil / postNil = the callback is nil; lazy = the children of a node only become available
+         through its Pre callback (a view that is expanded on visit, inline content parsed on demand): Pre is "called before the
+         node's children are traversed", so the machine reads a node's children AFTER Pre has returned - the callback sequence
+         is the same with and without lazy, which is exactly what the replay checks (custom ChildCount reports 0 until Pre ran);
+         nest = nodes that the Pre callback handles itself: it walks each of their children with the SAME WalkOptions value (a
+         nested, complete Walk per child, each child a root of its own) and returns false. Walks are re-entrant: the outer walk
+         goes on afterwards as if the node had simply been pruned. (The replay uses an options value that has been used before.)
    Machine (one action per loop iteration of walk.go): explicit stack of frames
          [node, parent, block, index, post]; Pop a frame; a post frame calls Post (and stops if it returns
          false); otherwise call Pre, and unless pruned push the post frame and the children in reverse.
@@ -34,14 +40,16 @@ Typings(par, vn) == {b \in [1..Len(par) -> BOOLEAN] :
 
 \* ------------------------------------------------------------------ requirement
 \* calls are tuples <<kind (1 pre, 2 post), node, parent, index, parentBlock>>
-RECURSIVE Visit(_, _, _, _, _), VisitKids(_, _, _, _, _)
+RECURSIVE Visit(_, _, _, _, _), VisitKids(_, _, _, _, _), NestedWalks(_, _, _)
 Visit(T, i, p, idx, b) ==
   LET pre == IF T.preNil THEN <<>> ELSE << <<1, i, p, idx, b>> >>
       post == IF T.postNil THEN <<>> ELSE << <<2, i, p, idx, b>> >>
       descend == T.preNil \/ i \notin T.prune
       nb == IF T.blk[i] THEN i ELSE b
       kids == IF i \in T.hide THEN <<>> ELSE Kids(T.par, i)      \* a user-supplied ChildCount that reports 0 hides the children
-  IN pre \o (IF descend THEN VisitKids(T, kids, 1, i, nb) \o post ELSE <<>>)
+  IN IF ~T.preNil /\ i \in T.nest THEN pre \o NestedWalks(T, Kids(T.par, i), 1)      \* Pre walks the children itself and returns false
+     ELSE pre \o (IF descend THEN VisitKids(T, kids, 1, i, nb) \o post ELSE <<>>)
+NestedWalks(T, kids, k) == IF k > Len(kids) THEN <<>> ELSE Visit(T, kids[k], 0, -1, 0) \o NestedWalks(T, kids, k + 1)
 VisitKids(T, kids, k, p, nb) ==
   IF k > Len(kids) THEN <<>> ELSE Visit(T, kids[k], p, k - 1, nb) \o VisitKids(T, kids, k + 1, p, nb)
 Ref(T) ==
@@ -54,10 +62,12 @@ VARIABLES T, stack, calls, done, tid, verdict
 vars == <<T, stack, calls, done, tid, verdict>>
 tvars == <<tid, verdict>>
 
-Policies(n) == [prune : SUBSET (1..n), abort : 0..n, preNil : BOOLEAN, postNil : BOOLEAN]
+Policies(n) == {pol \in [prune : SUBSET (1..n), abort : 0..n, preNil : BOOLEAN, postNil : BOOLEAN, lazy : BOOLEAN, nest : {{}} \cup {{m} : m \in 2..n}] :
+                   /\ (pol.preNil => ~pol.lazy)
+                   /\ (pol.nest # {} => pol.abort = 0 /\ ~pol.preNil /\ ~pol.lazy /\ pol.prune = {})}
 Init == /\ \E n \in 1..MaxNodes : \E par \in Trees(n) : \E vn \in (0..2) \cap (0..n) : \E b \in Typings(par, vn) : \E pol \in Policies(n) :
              T = [par |-> par, blk |-> b, vnode |-> vn, prune |-> pol.prune, abort |-> pol.abort,
-                  preNil |-> pol.preNil, postNil |-> pol.postNil, hide |-> {}]
+                  preNil |-> pol.preNil, postNil |-> pol.postNil, hide |-> {}, lazy |-> pol.lazy, nest |-> pol.nest]
         /\ stack = << [node |-> 1, parent |-> 0, block |-> 0, index |-> -1, post |-> FALSE] >>
         /\ calls = <<>> /\ done = FALSE /\ tid = 0 /\ verdict = "ok"
 
@@ -72,15 +82,19 @@ PopPost == /\ ~done /\ stack # <<>> /\ Cur.post
               ELSE done' = (Rest = <<>>) /\ stack' = Rest
            /\ UNCHANGED <<T, tid, verdict>>
 PopPre == /\ ~done /\ stack # <<>> /\ ~Cur.post
-          /\ calls' = IF T.preNil THEN calls ELSE Append(calls, Call(1, Cur))
-          /\ IF ~T.preNil /\ Cur.node \in T.prune
-             THEN stack' = Rest /\ done' = (Rest = <<>>)     \* pruned: no children, no Post
-             ELSE LET kids == IF Cur.node \in T.hide THEN <<>> ELSE Kids(T.par, Cur.node)
-                      nb == IF T.blk[Cur.node] THEN Cur.node ELSE Cur.block
-                      n == Len(kids)
-                      pushed == [k \in 1..n |-> [node |-> kids[n - k + 1], parent |-> Cur.node, block |-> nb,
-                                                  index |-> n - k, post |-> FALSE]]
-                  IN stack' = Rest \o <<[Cur EXCEPT !.post = TRUE]>> \o pushed /\ done' = FALSE
+          /\ IF ~T.preNil /\ Cur.node \in T.nest
+             THEN \* the callback runs complete nested walks (atomic here: they are user code inside Pre) and returns false
+                  /\ calls' = Append(calls, Call(1, Cur)) \o NestedWalks(T, Kids(T.par, Cur.node), 1)
+                  /\ stack' = Rest /\ done' = (Rest = <<>>)
+             ELSE /\ calls' = IF T.preNil THEN calls ELSE Append(calls, Call(1, Cur))
+                  /\ IF ~T.preNil /\ Cur.node \in T.prune
+                     THEN stack' = Rest /\ done' = (Rest = <<>>)     \* pruned: no children, no Post
+                     ELSE LET kids == IF Cur.node \in T.hide THEN <<>> ELSE Kids(T.par, Cur.node)     \* read now, after the Pre call above (T.lazy)
+                              nb == IF T.blk[Cur.node] THEN Cur.node ELSE Cur.block
+                              n == Len(kids)
+                              pushed == [k \in 1..n |-> [node |-> kids[n - k + 1], parent |-> Cur.node, block |-> nb,
+                                                          index |-> n - k, post |-> FALSE]]
+                          IN stack' = Rest \o <<[Cur EXCEPT !.post = TRUE]>> \o pushed /\ done' = FALSE
           /\ UNCHANGED <<T, tid, verdict>>
 Finished == done /\ UNCHANGED vars
 Next == PopPost \/ PopPre \/ Finished
@@ -95,7 +109,7 @@ Terminates == <>done
 OncePerNode == \A i, j \in 1..Len(calls) : i # j => ~(calls[i][1] = calls[j][1] /\ calls[i][2] = calls[j][2])
 
 Emit == done => PrintT(ToJson([par |-> T.par, blk |-> T.blk, vnode |-> T.vnode, prune |-> T.prune, abort |-> T.abort,
-                               preNil |-> T.preNil, postNil |-> T.postNil, calls |-> calls]))
+                               preNil |-> T.preNil, postNil |-> T.postNil, lazy |-> T.lazy, nest |-> T.nest, calls |-> calls]))
 
 \* ------------------------------------------------------------------ trace validation (direction B)
 \* record: par, blk, prune, abort, preNil, postNil, hide (nodes for which a custom ChildCount - with the default Child - reports 0), evs = <<kind, node, parent, index, parentBlock, consistent>>
@@ -103,7 +117,7 @@ Traces == ndJsonDeserialize(File)
 TraceVerdict(t) ==
   LET TT == [par |-> t.par, blk |-> [i \in 1..Len(t.blk) |-> t.blk[i] = 1], vnode |-> 0,
              prune |-> {t.prune[i] : i \in 1..Len(t.prune)}, abort |-> t.abort,
-             preNil |-> t.preNil = 1, postNil |-> t.postNil = 1, hide |-> {t.hide[i] : i \in 1..Len(t.hide)}]
+             preNil |-> t.preNil = 1, postNil |-> t.postNil = 1, hide |-> {t.hide[i] : i \in 1..Len(t.hide)}, nest |-> {}]
       want == Ref(TT)
       got == [k \in 1..Len(t.evs) |-> SubSeq(t.evs[k], 1, 5)]
   IN IF Len(got) # Len(want) THEN "number-of-callbacks"
